@@ -13,6 +13,10 @@ PROFILES = [
     ("filtered-and-unfiltered-choice", {"p_r": 1.0, "p_b": 1.0}),
     ("several filters", {"p_r": 1.0, "p_choice_filter": 1.0, "p_state_filter": 0.5, "p_q": 0.4, "T": [2, 3]}),
     ("log-grid", {"p_log": 1.0, "p_w": 1.0, "p_z": 0.0}),
+    # value arrays that hold -inf (states without feasible choice) which agents on the grid can reach
+    ("lower-bound constraint: poor states have no feasible choice", {"p_lower_bound": 1.0, "p_w": 1.0, "p_c": 1.0, "p_nobind": 0.0, "T": [2, 3], "p_z": 0.0}),
+    ("dead-end label reachable through the transition", {"p_w": 0.0, "p_z": 0.0, "p_h": 1.0, "p_h_stoch": 0.0, "p_dead_label": 1.0, "p_a": 1.0,
+                                                         "sizes": {"h": 3, "a": 3, "b": 3}, "T": [2, 3]}),
 ]
 
 
@@ -55,7 +59,7 @@ def make_specs(ctx: Ctx, n):
 
 def run(ctx: Ctx) -> Result:
     res = Result(ctx.prop)
-    specs = make_specs(ctx, ctx.n(44, 900))
+    specs = make_specs(ctx, ctx.n(54, 900))
     run_pipeline(ctx, res, specs, nontrivial=lambda s: s["mdl"]["T"] >= 2)
     finalize_cov(res, "seeded random models (5 strata), on-grid initial states; each case simulates with the simulate "
                       "target (arrays from solve) and with solve_and_simulate (same seed); non-trivial = T >= 2")
